@@ -8,6 +8,7 @@ run each listed check (quick tier), revert /repo; (3) write seeded/<name>/{patch
 """
 import sys, os, subprocess, json, shutil, re, time
 ROOT = os.path.dirname(os.path.dirname(os.path.abspath(__file__)))
+REPO = os.environ.get('VERIF_REPO', '/repo')      # the copy of the repository the checks are pointed at
 
 def sh(cmd, cwd=None, timeout=1800, env=None):
     e = dict(os.environ); e['CARGO_NET_OFFLINE'] = 'true'
@@ -38,9 +39,9 @@ def main():
     os.remove(os.path.join(wt, 'tests', 'demo_seed.rs'))
     print('confirmed:', meta['confirmed'])
     # (2) run the checks against the mutant in /repo
-    rc, out = sh('git -C /repo status --porcelain')
+    rc, out = sh('git -C %s ' % REPO + 'status --porcelain')
     assert out.strip() == '', '/repo not clean: ' + out
-    rc, out = sh('git -C /repo apply %s' % diff)
+    rc, out = sh('git -C %s ' % REPO + 'apply %s' % diff)
     assert rc == 0, out
     try:
         for c in checks:
@@ -52,7 +53,7 @@ def main():
                                  'detected': rc != 0, 'with_failing_input': any('no-failing-input-found' not in v for v in viol)}
             print(c, 'exit', rc, (viol[:1] or ['-'])[0][:150], (why[:1] or [''])[0][:160])
     finally:
-        sh('git -C /repo checkout -- .')
+        sh('git -C %s ' % REPO + 'checkout -- .')
         sh('git checkout -- evidence', cwd=ROOT)     # evidence written while a mutant was applied is not evidence
     # (3) file it
     d = os.path.join(ROOT, 'seeded', name)
